@@ -32,7 +32,7 @@ def one(n):
     finally:
         shutil.rmtree(d)
 
-names = sys.argv[1:] or sorted(os.listdir(f'{HERE}/seeded')) + sorted(os.path.basename(p)[:-6] for p in glob.glob(f'{HERE}/mutants/*.patch'))
+names = sys.argv[1:] or sorted(n for n in os.listdir(f'{HERE}/seeded') if os.path.isdir(f'{HERE}/seeded/{n}')) + sorted(os.path.basename(p)[:-6] for p in glob.glob(f'{HERE}/mutants/*.patch'))
 with ThreadPoolExecutor(4) as ex:
     for n, props, st, out in ex.map(one, names):
         if st != 'RAN':
